@@ -35,6 +35,7 @@ deriving DecidableEq, Repr
 
 structure Cfg where
   maxInvoices : Nat
+  maxChannels : Nat       -- policy.max_channels (distinct channels the map may hold)
   readyOid : Nat          -- node-assigned id of the one ready channel
   now : Nat               -- the clock (constant in the harness)
 deriving Repr
@@ -93,8 +94,9 @@ def keysend (c : Cfg) (s : St) (amt : Nat) (dup : Bool) : Option (St × Res) :=
       some ({ s with mem := mem, lastPresent := true,
                      disk := { s.disk with vc := mem.vc, invoices := mem.invoices, hwm := mem.hwm } }, .ok)
 
-def newChannel (s : St) (dbid : Nat) : St × Res :=
+def newChannel (c : Cfg) (s : St) (dbid : Nat) : St × Res :=
   if dbid ≤ s.mem.hwm then (s, .err)                            -- policy-channel-original-channel-id-reuse
+  else if c.maxChannels ≤ s.mem.stubs.length + 1 then (s, .err) -- "too many channels" (before the slot lookup)
   else if s.mem.stubs.contains dbid then (s, .ok)               -- existing slot
   else
     ({ s with mem := { s.mem with stubs := s.mem.stubs ++ [dbid] },
@@ -135,7 +137,7 @@ deriving Repr
 def step (c : Cfg) (s : St) : Op → Option (St × Res)
   | .al op es => some (allowlistOp s op es)
   | .ks amt dup => keysend c s amt dup
-  | .newch d => some (newChannel s d)
+  | .newch d => some (newChannel c s d)
   | .forget w => some (forgetChannel c s w)
   | .restart => some (restart s)
 
